@@ -173,13 +173,13 @@ Proof. vm_compute. reflexivity. Qed.
    assignments are seen; `modify` inside a closure writes through the captured cell, visible to the owner and to every
    other closure over it), function values returned, stored, re-assigned, passed as arguments and called through
    variables; statements: assignment, modify, op-assignment, print, assert, expression statements, if, if / else, else-if,
-   while, from (named fresh counter, step 1), break, continue, return; calls (also `self(..)`) anywhere in expressions.  For every such program the model compiler's code, run by the VM model, prints exactly the lines the reference
+   while, from loops of every form, break, continue, return; calls (also `self(..)`) anywhere in expressions.  For every such program the model compiler's code, run by the VM model, prints exactly the lines the reference
    semantics (Lang/Eval.v: lexical scoping, capture by reference, modify writes the captured cell, plain assignment
    declares a local) prescribes and ends the same way.  `in_fragment2` is a kind checker (data vs. function values) plus
    a check that the code generator's output is what the simulation's code functions say; the C07 check evaluates the
    extracted `in_fragment` (= in_fragment1 || in_fragment2) on every program it generates.
-   PARTIAL: outside the fragment (anonymous / colliding / stepped from-loop counters together with these closure features,
-   calls in from-loop bounds) the statement is established by the T1/T2/T3 correspondences only. *)
+   PARTIAL: outside the fragment (calls in the upper bound of a named-counter from loop, calls or captured variables in a
+   step expression) the statement is established by the T1/T2/T3 correspondences only. *)
 From MS Require Import Compile.ClosFrag Compile.ClosRel Compile.ClosSim Compile.ClosTop Compile.StmtSim Compile.StmtFragB Compile.StmtExamples Compile.ClosExamples.
 Check closure_module_correct.
 Theorem C07_closure_programs_correct_partial : forall (path : str) (p : source), in_fragment2 path p = true ->
